@@ -388,7 +388,7 @@ class Canon:
                 r0 = self.rel(str_arg(args[1] if name == "openat" else args[0]))
                 if not (r0 and r0[0] == "dir" and self.dname(r0[1]) == rm[0]):
                     flush_rm()
-            else:
+            elif name not in ("newfstatat", "stat", "lstat"):
                 flush_rm()
             if name in ("openat", "open", "creat"):
                 pa = args[1] if name == "openat" else args[0]
